@@ -129,10 +129,20 @@ def attr_token(S):
     return S.dict({"type": 3, "name": S.str("tagname"), "data": attrs, "selfClosing": False})
 
 
+def _entity_havoc(S, env):
+    # frame of consumeEntity as callers see it: input is consumed, tokens may be queued, and in an
+    # attribute the value of the attribute under construction grows
+    t = env.d["self"]
+    t.fields["stream"].fields["ghost_view"] = S.str("view_after_reference")
+    t.fields["tokenQueue"] = S.anylist("tokenQueue_after_reference", cls="deque")
+    if env.d.get("fromAttribute"):
+        t.fields["currentToken"].entries["data"][0].items[-1].items[1] = S.str("value_after_reference")
+
+
 @contract(TOK + ".consumeEntity")
 class ConsumeEntity:
     props = ("C14",)
-    modular = False
+    havoc = _entity_havoc
     split_depth = 7
 
     def inputs(S):
